@@ -6,18 +6,22 @@ package filter
 
 //@ func All(comps) (r)
 //@   props C04
+//@   requires forall k int :: 0 <= k && k < len(comps) ==> validID(comps[k].id)
 //@   ensures forall i uint8 :: specBit(r, i) == (validID(i) && exists k int :: 0 <= k && k < len(comps) && comps[k].id == i)
 
 //@ func Any(comps) (r)
 //@   props C04
+//@   requires forall k int :: 0 <= k && k < len(comps) ==> validID(comps[k].id)
 //@   ensures forall i uint8 :: specBit(Mask(r), i) == (validID(i) && exists k int :: 0 <= k && k < len(comps) && comps[k].id == i)
 
 //@ func NoneOf(comps) (r)
 //@   props C04
+//@   requires forall k int :: 0 <= k && k < len(comps) ==> validID(comps[k].id)
 //@   ensures forall i uint8 :: specBit(Mask(r), i) == (validID(i) && exists k int :: 0 <= k && k < len(comps) && comps[k].id == i)
 
 //@ func AnyNot(comps) (r)
 //@   props C04
+//@   requires forall k int :: 0 <= k && k < len(comps) ==> validID(comps[k].id)
 //@   ensures forall i uint8 :: specBit(Mask(r), i) == (validID(i) && exists k int :: 0 <= k && k < len(comps) && comps[k].id == i)
 
 //@ func ANY.Matches(f, bits) (r)
